@@ -1,7 +1,9 @@
 """C08 — length() and normalisation are accurate for every non-overflowing vector.
 
-T-route theorems (exact semantics, all real vectors) + MEASURED residue (ulp accuracy, subnormal handling,
-no NaN/inf).  The residue is the heart of C08 and is not proved: the property is only PARTIALLY proved."""
+T-route theorems (VALUE: exact semantics, all real vectors, every tmin tmax; SHAPE: the guard, lengthTiny and the quotients as written,
+syntactic, own key `shape:<fn>`) + MEASURED residue (ulp accuracy with classes from the reference, bitwise branch probe at both
+thresholds, drift against the calibration, bit-exact lattice, subnormal handling, no NaN/inf; thorough: all 2^31 floats in six families).
+The residue is the heart of C08 and is not proved: the property is only PARTIALLY proved."""
 import os, re
 import lib, troute
 
